@@ -12,7 +12,7 @@ import copy
 import gc
 
 from simkit.core import EventLog, Outcome, Violation, stream_rng, stable_hash
-from props.repro_common import Doc, Seg, gen_body, mini_parse_field, parse, norm_value
+from props.repro_common import Doc, Seg, gen_body, mini_parse_field, parse, norm_value, nl_lines
 
 ID = "C11"
 LEVEL = "exploration"
@@ -51,13 +51,15 @@ PROBES = ["remove_first_value", "remove_last_value", "remove_middle_value",
           "two_views_of_the_same_field"]
 
 WSV = ["amd64", "i386", "any", "linux-any", "x", "a1", "#h", "!hurd", "[x]", "ü"]
-CMV = ["libc6", "foo (>= 1.0)", "x y", "bb", "a | b", "#h", "${misc:Depends}", "q", "a b"]
+ODD_BLANKS = ["\x0c", "\x85", "\u2028", "\x1c"]      # white space, but not line ends
+CMV = ["libc6", "foo (>= 1.0)", "x y", "bb", "a | b", "#h", "${misc:Depends}", "q", "a b",
+       "p\x0cq", "nel\x85x"]
 LISTNAMES = ["Depends", "Arch", "Uploaders"]
 OTHER = ["Package", "Section", "X-Foo", "Description"]
 
 
 def split_list(after_colon, kind):
-    lines = after_colon.splitlines(True)
+    lines = nl_lines(after_colon)
     keep = lines[:1] + [l for l in lines[1:] if not l.startswith("#")]
     text = "".join(keep)
     if kind == "ws":
@@ -83,8 +85,9 @@ def gen_list_body(rng, name, kind, terminated=True):
         line_has_value = True
         last = i == len(vals) - 1
         if kind == "ws":
-            sep = rng.choice([" ", " ", "  ", "\t", "NL", "NL"]) if not last else \
-                rng.choice(["", "", " ", "\t"])
+            sep = rng.choice([" ", " ", "  ", "\t", "NL", "NL"] + ODD_BLANKS[:1 + (i % 4)]
+                             if rng.random() < 0.08 else [" ", " ", "  ", "\t", "NL", "NL"]) \
+                if not last else rng.choice(["", "", " ", "\t"])
         else:
             if not last:
                 sep = rng.choice([", ", ",", " , ", ",  ", ",NL", ", NL", "NL,", ",,", " ,\t"])
@@ -371,7 +374,7 @@ def execute(case):
                                "changed": False, "next": len(want), "it": None, "itpos": 0,
                                "itcur": None, "itlive": True}
                 open_order.append(vkey)
-                lines = seg.after_colon.splitlines(True)
+                lines = nl_lines(seg.after_colon)
                 if any(l.startswith("\t") for l in lines[1:]):
                     out.probe("tab_continuation")
                 if seg.after_colon.lstrip(" \t").startswith("#"):
@@ -545,7 +548,7 @@ def execute(case):
                 else:
                     out.probe("remove_middle_value")
                 if "#" in seg.after_colon.split("\n", 1)[-1] and \
-                        any(l.startswith("#") for l in seg.after_colon.splitlines()[1:]):
+                        any(l.startswith("#") for l in nl_lines(seg.after_colon, False)[1:]):
                     out.probe("remove_next_to_comment_line")
             try:
                 if how == "append":
